@@ -24,7 +24,7 @@ RULE = ("caption sets of 1-5 captions, 1-4 lines each of 1-80 characters over th
         'A caption text may be repeated inside a set, and the writer object may have written '
         'the same set before. '
         "Words include look-alikes of other formats' markup (&amp; &lt; <i> --> ...), which are "
-        "plain text here; the set sits at 0 s or around the 1 h / 2 h / 10 h / 24 h / 100 h marks. ")
+        "plain text here; in 'window' mode a caption ends while the next one is being transmitted; the set sits at 0 s or around the 1 h / 2 h / 10 h / 24 h / 100 h marks. ")
 ASSUMPTIONS = [
     "a row break after a hyphen is a legitimate line-break opportunity (textwrap semantics)",
     "three frames = 3 * 1001/30000 s; the display instant is the first EOC word of the pair",
@@ -82,7 +82,11 @@ def set_strategy(tier):
             caps[-1]["lines"] = list(caps[0]["lines"])      # a repeated caption text
         # where on the clock the set sits: around hour boundaries too (seconds added to all times)
         base = draw(st.sampled_from([0, 0, 0, 3590, 3600, 3601, 7200, 7206, 35990, 36000, 86390, 359990]))
-        return {"caps": caps, "lead": draw(st.sampled_from([0, 0, 1, 30, 3000])), "base": base,
+        # "window" mode: a caption ends while the next one is already being transmitted (its end
+        # lies 0..transmission-time frames before the next start)
+        window = (not tight) and draw(st.integers(0, 3)) == 0
+        return {"caps": caps, "lead": draw(st.sampled_from([0, 0, 1, 30, 3000])), "base": base, "window": window,
+                "wfrac": [draw(st.integers(0, 100)) for _ in caps],
                 "reuse": draw(st.integers(0, 3)) == 0, "tight": tight}
     return build()
 
@@ -108,6 +112,8 @@ def build_set(case):
         probe = model.cue_to_py(_model_caption(c["lines"], 0, 1))
         needs.append((len(w._text_to_code(probe)) // 5 + 8) * FRAME)
     tight = case.get("tight")
+    window = case.get("window")
+    ends = {}
     starts = []
     t_free = Fraction(0)
     for i, c in enumerate(case["caps"]):
@@ -115,6 +121,12 @@ def build_set(case):
             start = needs[0] + case["lead"] * FRAME + c["sub"] + case.get("base", 0) * 10 ** 6
         elif tight:
             start = starts[-1] + needs[i] + (c["slack"] % 3) * FRAME + c["sub"] % 1000
+        elif window:
+            # the previous caption is long enough for this one to be sent while it is up; it
+            # ends somewhere inside this caption's transmission window
+            prev = case["caps"][i - 1]
+            start = starts[-1] + max(prev["dur"] * FRAME, needs[i] + 2 * FRAME) + c["sub"] % 1000
+            ends[i - 1] = Fraction(int(start) + 1) - needs[i] * case["wfrac"][i] / 100
         else:
             start = t_free + needs[i] + c["slack"] * FRAME + c["sub"]
         start = Fraction(int(start) + 1)
@@ -125,6 +137,8 @@ def build_set(case):
         end = starts[i] + c["dur"] * FRAME
         if tight and i + 1 < len(starts):
             end = starts[i + 1]
+        if i in ends:
+            end = max(ends[i], starts[i] + 20 * FRAME)
         cues.append(_model_caption(c["lines"], int(starts[i]), int(end)))
     return {"langs": [{"code": "en-US", "layout": None, "cues": cues}], "styles": {}, "layout": None}
 
